@@ -99,7 +99,9 @@ pub fn observe(bytes: &[u8], case: &Value, preset_name: &str, ev: &EventCounter)
             }
         }
         Some(Value::String(s)) if s == "all" => {
-            let n = case.get("max_obj").and_then(|x| x.as_u64()).unwrap_or(64) as u32;
+            let size = reader.trailer().size().unwrap_or(64).min(2_000_000);
+            let n = case.get("max_obj").and_then(|x| x.as_u64()).map(|x| x as u32).unwrap_or(size.saturating_sub(1));
+            out.insert("trailer_size".into(), json!(size));
             for i in 1..=n {
                 want.push((i, 0));
             }
@@ -108,7 +110,15 @@ pub fn observe(bytes: &[u8], case: &Value, preset_name: &str, ev: &EventCounter)
     }
     if !want.is_empty() {
         let mut objs = Map::new();
+        let enumerating = matches!(case.get("objects"), Some(Value::String(_)));
+        let last = want.last().map(|x| x.0).unwrap_or(0);
+        let mut misses = 0u32;
         for (n, g) in want {
+            // writers may leave huge gaps in the numbering (free entries): after a long
+            // run of absent objects jump to the tail of the number space
+            if enumerating && misses >= 40 && n + 4 < last {
+                continue;
+            }
             let key = format!("{n} {g}");
             let v = match reader.get_object(n, g) {
                 Ok(o) => {
@@ -131,6 +141,14 @@ pub fn observe(bytes: &[u8], case: &Value, preset_name: &str, ev: &EventCounter)
                 }
                 Err(e) => err_val(e),
             };
+            if v.is_null() || v.get("err").is_some() {
+                misses += 1;
+                if enumerating && misses > 40 {
+                    continue; // do not log the tail of a gap
+                }
+            } else {
+                misses = 0;
+            }
             objs.insert(key, v);
         }
         out.insert("objects".into(), Value::Object(objs));
@@ -192,12 +210,31 @@ pub fn observe(bytes: &[u8], case: &Value, preset_name: &str, ev: &EventCounter)
 
 pub fn run(ctx: &Ctx, rec: &mut Recorder) -> Result<(), String> {
     let dir = std::path::PathBuf::from(ctx.arg("dir").ok_or("OBS needs --arg dir=")?);
-    let cases = std::fs::read_to_string(dir.join("cases.jsonl")).map_err(|e| format!("cases.jsonl: {e}"))?;
+    // cases.jsonl and/or cases-<shard>.jsonl files
+    let mut cases = String::new();
+    let mut names: Vec<_> = std::fs::read_dir(&dir)
+        .map_err(|e| format!("{dir:?}: {e}"))?
+        .filter_map(|e| e.ok())
+        .map(|e| e.file_name().to_string_lossy().to_string())
+        .filter(|n| n.starts_with("cases") && n.ends_with(".jsonl"))
+        .collect();
+    names.sort();
+    if names.is_empty() {
+        return Err(format!("no cases*.jsonl in {dir:?}"));
+    }
+    for n in names {
+        cases.push_str(&std::fs::read_to_string(dir.join(&n)).map_err(|e| format!("{n}: {e}"))?);
+        if !cases.ends_with('\n') {
+            cases.push('\n');
+        }
+    }
     let outp = ctx.out.join(format!("obs-{}.jsonl", ctx.shard));
     let mut f = std::io::BufWriter::new(std::fs::File::create(&outp).map_err(|e| e.to_string())?);
     let ev = EventCounter::install();
     for (i, line) in cases.lines().enumerate() {
-        if !ctx.mine(i as u64) || line.trim().is_empty() {
+        // spread by a hash of the line number: consecutive cases are often the same
+        // program under neighbouring (equally slow or fast) configurations
+        if !ctx.mine(crate::rng::fnv64(&(i as u64).to_le_bytes())) || line.trim().is_empty() {
             continue;
         }
         let case: Value = serde_json::from_str(line).map_err(|e| format!("bad case line {i}: {e}"))?;
